@@ -188,12 +188,42 @@ def sub_presentations(ctx):
     ctx.run_given(body, cases(), max_examples=ctx.n(96, 4000), shrink=not ctx.quick)
 
 
+EXAMPLE_KINDS = ["q-order", "mode-order", "weight-scale", "static-columns", "static-rows", "volume-order"]
+
+
+def sub_examples(ctx):
+    """The shipped examples (measured spectra with mode crossings), read with an own parser and re-presented by the
+    own writers: akimotoite in both tiers, diopside (150 q-points, ~9 s per run) in the thorough tier."""
+    from ..datasets import ExampleDataset
+    names = ["akimotoite"] + ([] if ctx.quick else ["diopside"])
+    jobs = [(n, k, ps) for n in names for k in EXAMPLE_KINDS for ps in ((1,) if ctx.quick else (1, 2, 3))]
+    for j, (name, kind, pseed) in enumerate(jobs):
+        if j % ctx.nshards != ctx.shard:
+            continue
+        if kind == "volume-order" and ctx.is_excluded("C13/volume-order"):
+            continue
+        try:
+            ds = ExampleDataset(name)
+        except FileNotFoundError:
+            ctx.stats.skip("example-missing-" + name)
+            continue
+        s = {"example": name, "kind": kind, "pseed": pseed + ctx.base_seed, "factor": 7.25, "vorder": "reversed" if pseed % 2 else "shuffled",
+             "colstyle": "all"}
+        info = oracle(ctx, s, ds, ds.qha_settings(), s)
+        ctx.case(s, True, classes=["example-" + name, "kind-" + kind])
+
+
 def subchecks(ctx):
-    return [("presentations", sub_presentations)]
+    return [("presentations", sub_presentations), ("examples", sub_examples)]
 
 
 def replay(ctx, payload):
     s = payload["case"]
+    if "example" in s:
+        from ..datasets import ExampleDataset
+        ds = ExampleDataset(s["example"])
+        oracle(ctx, s, ds, ds.qha_settings(), s)
+        return
     ds, qs = build(s)
     if qs is not None:
         oracle(ctx, s, ds, qs, s)
